@@ -23,6 +23,11 @@ class Unsupported(Exception):
     pass
 
 
+class RockitRaised(Exception):
+    """the real code raised on a well-posed specification"""
+    pass
+
+
 # ------------------------------------------------------------------------------------------
 # constant pool
 # ------------------------------------------------------------------------------------------
